@@ -6,6 +6,7 @@ import concurrent.futures as cf
 import os
 
 import common
+import coq_robust
 from common import Check, run_impl, standard_proof_step, TRUSTED_COMMON, ROOT
 import genmodels as G
 
@@ -88,7 +89,8 @@ def guard_check(ck, fut):
             else:
                 stats["unsupported"] += 1
     checks = {k: k for k in ["model_agrees", "model_same", "obs_same", "obs_same_dict", "ws_guard", "maps_guard", "attrs_guard", "rename_guard"]}
-    bad = common.coq_bad_matrix("c09_guard", IMPORTS, "\n".join(defs) + GUARD_DEFS, "c09_case", checks, terms)
+    bad, cstats = coq_robust.matrix(ck, "c09_guard", IMPORTS, "\n".join(defs) + GUARD_DEFS, "c09_case", checks, terms, targets=["Model/ParserInvCorr.vo", "Proofs/ParserInvWs.vo", "Proofs/ParserInvAttrs.vo", "Proofs/ParserCtxGuard.vo"])
+    stats["coq_eval"] = cstats
     badsets = {k: set(v) for k, v in bad.items()}
     guard_of = {"ws": "ws_guard", "redecl": "maps_guard", "attrs": "attrs_guard", "rename": "rename_guard"}
     for i, (j, c) in enumerate(meta):
